@@ -354,7 +354,8 @@ func parseContractFile(fset *token.FileSet, f *ast.File, pkgPath string) ([]*Con
 		case "maypanic":
 			// maypanic "<message>": an explicit panic with this constant message is a declared refusal whose condition
 			// depends on values read during the call (no obligation is generated for it)
-			cur.MayPanic = append(cur.MayPanic, strings.Trim(rest, "\""))
+			// maypanic <errName> #k: only the k-th panic(<errName>) of the body, in source order
+			cur.MayPanic = append(cur.MayPanic, strings.TrimSpace(rest))
 		case "panics":
 			r := strings.TrimSpace(strings.TrimPrefix(rest, "when"))
 			cur.PanicsWhen = append(cur.PanicsWhen, mk("panics", r))
